@@ -107,7 +107,7 @@ func c15Family(n int) []uriSpec {
 	schemes := []string{"sip", "sips"}
 	users := []string{"", "a", "A", "b"}
 	passes := []string{"", "p", "P"}
-	hosts := []string{"h", "g", "[::1]", "h.example"}
+	hosts := []string{"h", "g", "[::1]", "h.example", "[2001:db8::a]", "3com.example"}
 	ports := []string{"", "5060", "5061"}
 	pmenu := []string{"transport=udp", "transport=tcp", "user=phone", "ttl=1", "maddr=m", "method=INVITE", "lr", "x=1", "x=2", "y"}
 	hmenu := []string{"a=1", "b=2", "a=2", "c=3"}
@@ -331,6 +331,7 @@ func checkC15(r *Run) {
 			vs, res := evalC15Pair(strs[i], strs[j])
 			mat[i][j] = res
 			c.st.Evals++
+			c.st.Outcomes[fmt.Sprintf("equal=%v equal-ignoring-all=%v", res[0], res[63])]++
 			c.st.Transitions += 64 * 3
 			if keys[i] == keys[j] {
 				c.st.Nontrivial++
